@@ -16,8 +16,10 @@ import (
 )
 
 // known finding line formats in KNOWN_FINDINGS.txt:
-//   finding: property=<id> key=<key> :: <what fails>
-//   fixed: property=<id> <commit> <what failed>
+//
+//	finding: property=<id> key=<key> :: <what fails>
+//	fixed: property=<id> <commit> <what failed>
+//
 // A key ending in '*' matches by prefix.
 type knownFinding struct {
 	Prop, Key, Desc string
